@@ -1,4 +1,4 @@
-import SignalGen.Generated
+import SignalGen.Gen.Scalar
 /-!
 # Regenerated tie, C01 / C02 / C14: `channels.BufferIndex` (and the two header accessors) as the Go source defines them now are the model's `bufferIndex` in 64-bit `int` arithmetic
 -/
